@@ -33,7 +33,9 @@ def ref_dns_entry(entry: str, host: str) -> str:
         return EITHER
     hl = host.lower().split(".")
     el = entry.lower().split(".")
-    host_weird = ("*" in host) or any(x == "" for x in hl)
+    # only a host that itself contains '*' is outside the decided classes; empty labels are decided:
+    # no wildcard may match an empty label, and without a wildcard only exact equality accepts
+    host_weird = "*" in host
     if "*" not in entry:
         if entry.lower() == host.lower():
             return ACCEPT  # exact case-insensitive match is must-accept whatever the spelling
